@@ -5,4 +5,9 @@ CHECKS = {
             'text': 'Bounded symbolic verification: socialize_loss, check_account_bankrupt and the bankruptcy handler are executed symbolically from their MIR; every path is decided by z3 for all i128/u64 values. No unbounded claim.',
             'note': 'Trusted: rustc MIR, ~40 library models of fixed/core, z3, SPL token semantics, Solana atomicity.'},
 }
+_W = {'technique': MS, 'engine': 'mirsym',
+      'text': 'Bounded symbolic verification (inductive step): every BankAccountWrapper operation of the real crate is executed symbolically from its MIR (callees inlined, paths state-merged) from an arbitrary pre-state; z3 decides each goal for all i128/u64 values; counterexamples are replayed natively. No unbounded claim.',
+      'note': 'Trusted: rustc MIR, library models of fixed/core (validated per run against the native functions on seeded inputs), z3, SPL token semantics. Whole-history claim follows by induction over operations, which is an argument, not a query.'}
+for _p in ('C01', 'C02', 'C03', 'C16', 'C17'):
+    CHECKS[_p] = dict(_W)
 NOT_APPLICABLE = {}
